@@ -3,7 +3,7 @@
 const char *prop_id() { return "C09"; }
 
 bool prop_run(Tape &t, Report &r) {
-  ChainOpts o; o.maxlinks = t.chance(1, 10) ? 16 : 5; if (o.maxlinks == 16) o.maxN = 6000;
+  ChainOpts o; o.maxlinks = t.chance(1, 10) ? 16 : 5; if (o.maxlinks == 16) o.maxN = 6000; o.gp_offset_pct = 12; o.vgen_pct = g_tape_gen >= 3 ? 25 : 0;
   Chain c; GT g; std::vector<LinkMeta> meta; std::string desc;
   if (!gen_chain(t, r, o, c, g, meta, desc)) return false;
   size_t k = c.links.size();
